@@ -31,3 +31,38 @@ def tail_ok(s):
     if s[-1] != "b":
         return s + "#"
     return s[:-1]
+
+
+class Cell(object):
+    def __init__(self):
+        self.v = 0
+
+    def put(self, v):
+        self.v = v
+        return self
+
+
+def chain_ok(c):
+    c.put(3)
+    return c.v + 1
+
+
+def chain_bad(c):
+    c.put(3)
+    return c.v + 2
+
+
+def append_ok(log, x):
+    log.append([x, 1])
+    return len(log)
+
+
+def append_bad(log, x):
+    log.append([x, 1])
+    log.append([x, 2])
+    return len(log) - 1
+
+
+def default_bad(x, seen=[]):
+    seen.insert(0, x)
+    return len(seen)
